@@ -2,16 +2,21 @@
 
 use serde_json::Value;
 use std::io::{BufRead, BufReader, Write};
-use std::process::{Child, ChildStdin, ChildStdout, Command, Stdio};
+use std::process::{Child, ChildStdin, Command, Stdio};
+use std::sync::mpsc::{channel, Receiver, RecvTimeoutError};
+use std::time::Duration;
 
 pub const NODE22: &str = "/root/.nvm/versions/node/v22.22.2/bin/node";
 
 pub struct Worker {
     child: Child,
     stdin: ChildStdin,
-    stdout: BufReader<ChildStdout>,
+    lines: Receiver<std::io::Result<String>>,
     pub requests: u64,
 }
+
+/// wall-clock guard for one request: a hang of the *machinery* (exit 2 — never a violation)
+pub const REQUEST_TIMEOUT_S: u64 = 120;
 
 #[derive(Debug)]
 pub struct WorkerError(pub String);
@@ -42,7 +47,26 @@ impl Worker {
             .map_err(|e| WorkerError(format!("cannot spawn node 22: {}", e)))?;
         let stdin = child.stdin.take().unwrap();
         let stdout = BufReader::new(child.stdout.take().unwrap());
-        let mut w = Worker { child, stdin, stdout, requests: 0 };
+        let (tx, rx) = channel();
+        std::thread::spawn(move || {
+            let mut stdout = stdout;
+            loop {
+                let mut line = String::new();
+                match stdout.read_line(&mut line) {
+                    Ok(0) => break,
+                    Ok(_) => {
+                        if tx.send(Ok(line)).is_err() {
+                            break;
+                        }
+                    }
+                    Err(e) => {
+                        let _ = tx.send(Err(e));
+                        break;
+                    }
+                }
+            }
+        });
+        let mut w = Worker { child, stdin, lines: rx, requests: 0 };
         let pong = w.request(&serde_json::json!({"kind":"ping"}))?;
         if pong.get("ok").and_then(|x| x.as_bool()) != Some(true) {
             return Err(WorkerError(format!("bad ping response: {}", pong)));
@@ -55,11 +79,15 @@ impl Worker {
         line.push('\n');
         self.stdin.write_all(line.as_bytes()).map_err(|e| WorkerError(format!("write to worker: {}", e)))?;
         self.stdin.flush().map_err(|e| WorkerError(format!("flush: {}", e)))?;
-        let mut resp = String::new();
-        let n = self.stdout.read_line(&mut resp).map_err(|e| WorkerError(format!("read from worker: {}", e)))?;
-        if n == 0 {
-            return Err(WorkerError("worker closed its stdout (crashed?)".into()));
-        }
+        let resp = match self.lines.recv_timeout(Duration::from_secs(REQUEST_TIMEOUT_S)) {
+            Ok(Ok(l)) => l,
+            Ok(Err(e)) => return Err(WorkerError(format!("read from worker: {}", e))),
+            Err(RecvTimeoutError::Timeout) => {
+                let _ = self.child.kill();
+                return Err(WorkerError(format!("worker did not answer within {} s (killed)", REQUEST_TIMEOUT_S)));
+            }
+            Err(RecvTimeoutError::Disconnected) => return Err(WorkerError("worker closed its stdout (crashed?)".into())),
+        };
         self.requests += 1;
         let v: Value = serde_json::from_str(&resp).map_err(|e| WorkerError(format!("bad worker json: {} in {}", e, crate::util::truncate(&resp, 300))))?;
         if let Some(f) = v.get("fatal") {
